@@ -326,6 +326,9 @@ func (p *parser) parseTypeAssertion(left Node) Node {
 	if left.Type() != ANY_TYPE {
 		p.appendErrorForToken("value of type assertion must be of type any, not "+left.Type().String(), tok)
 	}
+	if t == nil {
+		return nil // previous error: no node without a type
+	}
 	return &TypeAssertion{T: t, token: tok, Left: left}
 }
 
